@@ -127,6 +127,18 @@ def mc_text(tier, rng):
         "YadK": "1..%d" % (kmax // 2),
         "IntVals": "{" + ", ".join("<<%d, %d>>" % q for q in intvals) + "}",
         "IntLenExps": "{0, 1}",
+        # part E: histories of assignments
+        "HistDims": "{1, 2, 3}" if big else "{2, 3}",
+        "HistLens": "{<<2, 1>>, <<1, 2>>}",
+        "HistRes": "{<<1, 1>>, <<2, 1>>, <<1, 2>>}",
+        "HistOpts": "{1, 2}",
+        "HistInts": "{<< <<3, 1>> >>, << <<1, 1>>, <<2, 1>> >>, << <<1, 2>>, <<1, 2>>, <<3, 1>> >>}",
+        "HistMaxSteps": "4" if big else "3",
+        # part F: truncated power law superposition
+        "TplLow": "{<<0, 1>>, <<1, 4>>, <<1, 2>>, <<1, 1>>, <<2, 1>>}",
+        "TplLen": "{<<3, 2>>, <<2, 1>>, <<3, 1>>, <<4, 1>>, <<6, 1>>}",
+        "TplRes": "{<<1, 1>>, <<2, 1>>, <<1, 2>>}",
+        "TplH2": "{<<1, 1>>, <<1, 2>>, <<3, 2>>}",
     }
     mod = "---- MODULE MC_Derive ----\nEXTENDS Derive\n"
     mod += "".join("Mc%s == %s\n" % kv for kv in defs.items()) + "====\n"
